@@ -114,6 +114,7 @@ fn run_family(
 fn main() {
     // a stack overflow / abort in the code under test must become a verdict, not a dead check
     vcore::supervise("C20");
+    vcore::install_log_evaluation(); // logging is part of the environment: log arguments are evaluated as under a real subscriber
     let ctx = Ctx::from_args("C20", "exploration");
     let thorough = !ctx.quick();
     let w = World::new();
